@@ -111,7 +111,7 @@ func (f *Filler) GenOutput(txVersion ctypes.TransactionVersion, otypes []ctypes.
 				}
 			}
 		} else {
-			o.Type = rapid.SampledFrom(otypes).Draw(t, "outType")
+			o.Type = otypes[UniformIndex(t, len(otypes), "outType")]
 		}
 		o.Payload = f.OutputPayload(o.Type)
 	}
@@ -172,7 +172,7 @@ func GenTx(t *rapid.T, o TxOpts) interfaces.Transaction {
 	o.defaults()
 	f := NewFiller(t, o.Ring)
 	f.Budget = o.Budget
-	txType := rapid.SampledFrom(o.Types).Draw(t, "txType")
+	txType := o.Types[UniformIndex(t, len(o.Types), "txType")]
 	spec := SpecOf(txType)
 	if spec == nil {
 		panic("gen: GenTx: type not constructible")
